@@ -52,7 +52,7 @@ def claims_fn(ctx):
 
 
 def witness_fn(ctx):
-    r = ctx['results'][0]
+    r = [x for x in ctx['results'] if x['op'][0] in ('match', 'match_u')][0]
     T = r['op'][1]
     if not r['states']:
         return ['empty']
@@ -83,6 +83,12 @@ def instances(tier):
             out.append(('line2', g2, dict(fam=fam, T=3, ne=False, sym_maxdist=False, sym_init=False, sym_minprob=False), [('match', 3), ('match_u', 3)], {}))
             out.append(('oneway3', g3, dict(fam=fam, T=2, ne=True, **MD), [('match', 2), ('match_u', 2)], {}))
         out.append(('oneway4', NAMED['oneway4'], dict(fam='simple', T=2, ne=True, **MD), [('match', 2), ('match_u', 2)], {}))
+        # the same claims with the package logger at DEBUG (stopped candidates are then kept in the lattice; the result may not change)
+        for fam in ('simple', 'dist'):
+            out.append(('oneway2', ow2, dict(fam=fam, T=1, ne=False, **ALLSYM), [('loglevel', 'DEBUG'), ('match', 1), ('match_u', 1)], {}))
+            out.append(('oneway2', ow2, dict(fam=fam, T=2, ne=False, **ALLSYM), [('loglevel', 'DEBUG'), ('match', 2), ('match_u', 2)], {}))
+            out.append(('line2', g2, dict(fam=fam, T=3, ne=False, **MD), [('loglevel', 'DEBUG'), ('match', 3), ('match_u', 3)], {}))
+        out.append(('oneway3', g3, dict(fam='simple_n', T=2, ne=True, **MD), [('loglevel', 'DEBUG'), ('match', 2), ('match_u', 2)], {}))
         out.append(('oneway3', g3, dict(fam='simple', T=3, ne=False, **MP), [('match', 3), ('match_u', 3)], {}))
         out.append(('oneway3', g3, dict(fam='simple', T=2, ne=False, width=1, **MD), [('match', 2), ('match_u', 2)], {}))
     else:
@@ -95,6 +101,8 @@ def instances(tier):
                                 continue
                             out.append((name, g, dict(fam=fam, T=T, ne=ne, **sym), [('match', T), ('match_u', T)], {}))
                     out.append((name, g, dict(fam=fam, T=2, ne=ne, width=1, **MD), [('match', 2), ('match_u', 2)], {}))
+                    out.append((name, g, dict(fam=fam, T=2, ne=ne, **ALLSYM), [('loglevel', 'DEBUG'), ('match', 2), ('match_u', 2)], {}))
+                    out.append((name, g, dict(fam=fam, T=3, ne=ne, **MD), [('loglevel', 'DEBUG'), ('match', 3), ('match_u', 3)], {}))
     return out
 
 
@@ -113,7 +121,7 @@ def main(tier):
     res = gabs.run_all(rep, run_instance, instances(tier), budget, 16 * (100 if tier == 'quick' else 900))
     rep.bounds = dict(graphs="oneway2, line2, oneway3, oneway4" if tier == 'quick' else "all digraphs <=3 nodes/<=4 edges, fork, oneway4",
                       T="1..3", config="max_dist / max_dist_init / min_prob_norm symbolic (so that a stop after observation 0, 1, .. is reachable); "
-                      "both unique values in one path; three matcher families; non-emitting on/off; one width-1 instance")
+                      "both unique values in one path; three matcher families; non-emitting on/off; one width-1 instance; logger at ERROR and (7 instances) at DEBUG")
     rep.outside = ["rounding", "index truthfulness with non-emitting states or width (structural claims only there)", "graphs/traces beyond the bound"]
     rep.assumptions = ["AbsMap contract", "halfnorm formula shim", "probability threshold band +-1e-9"]
     gabs.collect(rep, res, PID, need_tags=('empty', 'complete', 'stop_after_observation_0', 'repeated_state'))
